@@ -111,6 +111,9 @@ prop("C13", engine="inh", worker="make_inh_trace", prefixes=["C13."], level="mod
      quick=dict(traces=160, nops=25), thorough=dict(traces=4000, nops=40))
 
 
+prop("C04", engine="inh", worker="make_c04_trace", prefixes=["C04."], level="model_checking",
+     jobs=lambda tier: [("c04", dict())],
+     quick=dict(traces=96, nops=26), thorough=dict(traces=3000, nops=40))
 prop("C07", engine="inh", worker="make_dyn_trace", prefixes=["C07."], level="model_checking",
      jobs=lambda tier: [("dyn", dict()), ("dyn", dict(gen=dict(p_uncached=0.4)))],
      quick=dict(traces=192, nops=28), thorough=dict(traces=5000, nops=45),
@@ -241,6 +244,14 @@ def corrupt(pid, tr, rng):
                             row[1][rng.choice(list(cs))] = {"v": ["int", 1, [], ""], "mode": "auto",
                                                             "derived": False}
                             return t, "C12.NamesUnique"
+        if pid == "C04" and e["op"] == "write_read" and e.get("reads"):
+            rd = [r for r in e["reads"] if r.get("readable") and r["defs"]["cells"]]
+            rows = [cs for r in rd for p, cs in r["defs"]["cells"] if cs]
+            if rows:
+                cs = rng.choice(rows)
+                c = rng.choice(list(cs))
+                cs[c]["cached"] = not cs[c]["cached"]
+                return t, "C04.DefsRoundTrip"
         if pid == "C07" and post.get("handles"):
             dyn = [h for h in post["handles"] if h[2] == "current" and h[4]]
             if dyn:
